@@ -1,7 +1,7 @@
 (** Correspondence evaluators for C12 and C10: the cases written by harness/cmd/c12 and c10 are
     compared with Sql/Model.v here (executable definitions only). *)
 From Coq Require Import List ZArith String Bool.
-From Thunder Require Import Sql.Model.
+From Thunder Require Import Sql.Model Sql.ModelExact.
 Import ListNotations.
 Open Scope string_scope.
 
@@ -112,7 +112,8 @@ Record c10_case : Type := mk_c10 {
   q_batched_stmts : list obs_event;     (* statements of the run on a batching context (any order) *)
   q_batched_rows : list (nat * list nat); (* per caller: result code, positions (in q_contents) of its rows *)
   q_single_stmts : list obs_event;      (* statements of the same calls without batching, per caller *)
-  q_single_rows : list (nat * list nat)
+  q_single_rows : list (nat * list nat);
+  q_transparent : list bool             (* per caller: the harness's own decision of [filter_transparent] *)
 }.
 
 Fixpoint filter_idx {A : Type} (p : A -> bool) (l : list A) (i : nat) : list nat :=
@@ -227,7 +228,25 @@ Definition has_opts (cs : list c10_caller) (i : nat) : bool :=
     3 = text / arguments of the stand-alone statements, 4 = results of the stand-alone calls (the fake
     server's WHERE / ORDER BY / LIMIT evaluation against the model's), 5 = the generated case is outside the
     theorems' domain (a harness defect), 6 = the callers that went through the batch function are not
-    exactly the callers without options. *)
+    exactly the callers without options, 7 = the harness's decision of the theorems' premise
+    ([filter_transparent]: its oracle's known class is the complement) differs from the model's,
+    8 = a caller inside the premise of [c10_transparent_filters_get_their_own_rows] was observed to get
+    another result on the batching context than alone (the theorem's conclusion, checked on the
+    implementation's outputs under the model's premise). *)
+Fixpoint bool_list_eqb (a b : list bool) : bool :=
+  match a, b with
+  | [], [] => true
+  | x :: a', y :: b' => Bool.eqb x y && bool_list_eqb a' b'
+  | _, _ => false
+  end.
+
+Fixpoint premise_conclusion (t : table) (fs : list filter) (batched single : list (nat * list nat)) : bool :=
+  match fs, batched, single with
+  | f :: fs', b :: bs, s :: ss =>
+      (negb (filter_transparent t f) || result_eqb b s) && premise_conclusion t fs' bs ss
+  | _, _, _ => true
+  end.
+
 Definition c10_check (c : c10_case) : list nat :=
   let t := q_table c in
   let fs := q_filters c in
@@ -244,7 +263,9 @@ Definition c10_check (c : c10_case) : list nat :=
   ++ (if table_ok t && columns_ok t && forallb (row_representable t) (q_contents c) then [] else [5])
   ++ (if forallb (fun i => Bool.eqb (has_opts cs i)
                              (match batch_of (q_arrival c) i with None => true | Some _ => false end)) (seq 0 n)
-      then [] else [6]).
+      then [] else [6])
+  ++ (if bool_list_eqb (map (filter_transparent t) fs) (q_transparent c) then [] else [7])
+  ++ (if premise_conclusion t fs (q_batched_rows c) (q_single_rows c) then [] else [8]).
 
 Fixpoint mismatches_c10 (_ : nat) (cs : list (nat * c10_case)) : list (nat * list nat) :=
   match cs with
